@@ -25,32 +25,68 @@ import random
 from fractions import Fraction
 
 import boot
-from core import Result, Stream, cbool, clist, cnat, copt, cpair, cz, czlist
+from core import Result, Stream, cbool, clist, cnat, copt, cpair
 
 PROPERTY = "C15"
-RULE = ("one case = one real SimulationContext (population 3-14 simulants, 1-3 tables, 3-8 requested indexes, 1-7 call "
-        "points: after population creation / inside a time_step listener / after steps). distinct = distinct canonical "
-        "(tables, population, requests, dates, flags); trivial = no table was called. Generators are boundary-biased: "
-        "attribute values are drawn from {every edge, edge +- 1/8, mid-bin, below the first edge, the last right edge, "
-        "above it}; dates from {Dec 30/31, Jan 1, Feb 28/29, Jul 1/2} of leap and non-leap years with steps of 1-366 days")
+RULE = ("one case = one real SimulationContext (population 3-10 simulants, 1-3 tables of at most 48 rows, 3-6 requested "
+        "indexes, 1-5 call points: after population creation / inside a time_step listener / after steps). distinct = "
+        "distinct canonical (tables, population, requests, dates, flags); trivial = no table was called. Generators are "
+        "boundary-biased: attribute values are drawn from {every edge, edge +- 1/8, mid-bin, below the first edge, the "
+        "last right edge, above it}; dates from {Dec 30/31, Jan 1, Feb 28/29, Jul 1/2} of leap and non-leap years with "
+        "steps of 1-366 days")
 ASSUMPTIONS = [
     "bin edges, attribute values and data values are exactly representable (multiples of 1/8, small integers): float "
     "comparisons are comparisons of the scaled integers of the model; the year value year + yday/365.25 never equals a "
     "multiple of 1/8 (1461 is coprime to 32*yday) and is at least 1e-5 away from one, so its rounding is immaterial",
     "key categories are interned in sorted order (pandas groupby order = model group order); simulant labels are unique",
-    "NaN attributes / NaN edges and non-numeric parameter columns are outside the model",
+    "NaN attributes / NaN edges and non-numeric parameter columns are outside the model; requests are duplicate-free "
+    "label lists (the theorems assume NoDup idx)",
     "the theorems C15_bin_membership / C15_extrapolate / C15_edges assume `wf` = the code's own validation "
     "(check_data_complete) AND that rows with the same left edge have the same right edge, which the code does not "
     "check (validation gap: the last bin's right edge may differ between sub-tables; see the report)",
 ]
-LEVEL_NOTE = ("full on validated data (wf); the `year` clause is partial: C15_year_in_current_year_partial holds for "
-              "day-of-year <= 365, C15_year_in_current_year_refuted exhibits Dec 31 of a leap year (finding F-N)")
+LEVEL_NOTE = ("full on well-formed data (wf); C15_year_current carries the guard day-of-year <= 365, "
+              "C15_year_leap_dec31_refuted exhibits the excluded class = Dec 31 of a leap year (open finding F-N)")
+
+CLAIM = {
+    "technique": "Coq proof over a Gallina model of the lookup tables + Coq-decided correspondence on real contexts",
+    "text": "Machine-checked (Coq 8.16.1, no axioms) for ALL well-formed binned data, populations, duplicate-free requests "
+            "and both extrapolation settings: the row returned for a simulant has the simulant's keys and half-open bins "
+            "containing every parameter value and is the unique such row; outside the range the nearest edge bin per "
+            "parameter or rejection; a call is the per-simulant function mapped over the request in request order "
+            "(rejection = some simulant rejected); scalar tables broadcast; categorical tables match keys. The model is "
+            "tied to /repo/src by vm_compute-decided agreement on generated real-context cases (boundary-rich, malformed "
+            "data included) and a brute-force row-scan oracle.",
+    "note": "well-formedness = the code's own validation (check_data_complete, transcribed and compared with the real "
+            "validation on malformed data) plus 'equal left edges have equal right edges', which the code does not "
+            "validate; floats modelled as scaled integers (inputs are multiples of 1/8); `year` theorem guarded by "
+            "day-of-year <= 365 (open finding F-N); NaN / non-numeric parameters, duplicate labels in a request and "
+            "keys absent from the data (KeyError, modelled as rejection) outside the theorems; correspondence sampled",
+}
+TRUSTED = [
+    "C15: probe component + recording wrapper around Interpolation.__call__ (reads the `year` column it is handed, "
+    "never alters it); sim._clock.time and sim._population.get_view read from outside to learn the clock date and to "
+    "untrack simulants; interning of category strings in sorted order; scaling of floats to integers (eighths; "
+    "eighths*1461 shifted by a constant for `year`)",
+]
 
 KEYCOLS = ["ka", "kb"]
 PARCOLS = ["pa", "pb", "pc"]
 CATS = ["c0", "c1", "c2", "c9"]          # sorted; c9 never occurs in generated data
 DEN = 8
 YSCALE = 1461 * DEN
+YBASE = 2000                    # years are emitted relative to it (smaller literals; comparisons are translation-invariant)
+YOFF = YBASE * YSCALE
+
+
+# Coq literals: the generated file opens Z_scope, so integers need no %Z (parsing cost is per literal node)
+def cz(n):
+    n = int(n)
+    return f"({n})" if n < 0 else f"{n}"
+
+
+def czlist(ns):
+    return clist(cz(n) for n in ns)
 
 
 # ----------------------------------------------------------------------------------------------------------------
@@ -176,14 +212,13 @@ def run_context(case):
         for ti, (tab, err) in enumerate(probe.built):
             if tab is None:
                 continue
-            # everything at the first call point; later only what can change: `year` tables (two requests), and one
-            # request of the others inside the listener / after the first step
+            # everything at the first call point; later only what can change: `year` tables (one request that is not
+            # rejected for other reasons, if there is one), and one request of the others inside the listener
+            later = case["requests"][case.get("rq_later", 0):][:1]
             if where == "created":
                 reqs = case["requests"]
-            elif "year" in case["tables"][ti]["params"]:
-                reqs = case["requests"][1:3]
-            elif where == "event" or (where == "stepped" and len(seen_steps) == 1):
-                reqs = case["requests"][1:2]
+            elif "year" in case["tables"][ti]["params"] or where == "event":
+                reqs = later
             else:
                 reqs = []
             for req in reqs:
@@ -263,8 +298,13 @@ def sim_keys(case, t, i):
     return [case["pop"][kc][i] for kc in t["keys"]]
 
 
+def edge(p, b):
+    """JSON eighths -> the model's integer for parameter p (`year`: eighths*1461, relative to YBASE)."""
+    return b * 1461 - YOFF if p == "year" else b
+
+
 def coq_rows(t):
-    return clist(cpair(czlist(r["k"]), clist(cpair(cz(b[0] * pscale(p)), cz(b[1] * pscale(p)))
+    return clist(cpair(czlist(r["k"]), clist(cpair(cz(edge(p, b[0])), cz(edge(p, b[1])))
                                              for p, b in zip(t["params"], r["b"])), czlist(r["v"]))
                  for r in t["rows"])
 
@@ -415,8 +455,8 @@ def run_binned(case):
             tags.add("built_grid" if groups is not None else "built_nongrid")
         ccalls = []
         for rec in recs:
-            yv = year_scaled(rec["yfloat"]) if "yfloat" in rec else None
-            ccalls.append(cpair(cz(rec["y"]), cz(rec["yday"]), copt(yv, cz), czlist(rec["idx"]), coq_obs(rec)))
+            yv = year_scaled(rec["yfloat"]) - YOFF if "yfloat" in rec else None
+            ccalls.append(cpair(cz(rec["y"] - YBASE), cz(rec["yday"]), copt(yv, cz), czlist(rec["idx"]), coq_obs(rec)))
             tags.add("call_ok" if rec["code"] == 0 else f"call_{rec.get('err')}")
             if rec["code"] == 0 and any(v is None for _, v in rec["rows"]):
                 tags.add("call_nan_row")
@@ -436,7 +476,7 @@ def run_binned(case):
             tags.add("year")
     tags.add("ext" if case["ext"] else "noext")
     tags.add("validate" if case["validate"] else "novalidate")
-    return Result(ok=ok, msg=msg, coq=clist(coq_tables), key=_key(case) if called else None, obs=obs,
+    return Result(ok=ok, msg=msg, coq=f"({clist(coq_tables)} : list itable)", key=_key(case) if called else None, obs=obs,
                   tags=tuple(sorted(tags)))
 
 
@@ -471,7 +511,17 @@ def gen_edges(rng, pname, base_year):
     return e        # nb+1 edges, eighths
 
 
+MAXROWS = 48
+
+
 def gen_table(rng, base_year, force_year=False, with_keys=None):
+    while True:
+        t = gen_table_any(rng, base_year, force_year, with_keys)
+        if len(t["rows"]) <= MAXROWS:
+            return t
+
+
+def gen_table_any(rng, base_year, force_year=False, with_keys=None):
     nk = rng.choice([0, 1, 1, 2]) if with_keys is None else with_keys
     keys = rng.sample(KEYCOLS, nk)
     if rng.random() < 0.5:
@@ -488,7 +538,7 @@ def gen_table(rng, base_year, force_year=False, with_keys=None):
         combos.remove(rng.choice(combos))            # a key tuple without data: allowed by the validation
     shared = [gen_edges(rng, p, base_year) for p in params]
     per_key = rng.random() < 0.3
-    rows, vid = [], rng.choice([1, 100, 5000])
+    rows, vid = [], rng.choice([1, 100, 400])
     for combo in combos:
         grid = [gen_edges(rng, p, base_year) for p in params] if per_key else shared
         degenerate = rng.random() < 0.04
@@ -499,7 +549,7 @@ def gen_table(rng, base_year, force_year=False, with_keys=None):
                 if degenerate and p == 0 and i == len(grid[p]) - 2:
                     e = s - 3                         # a last bin whose right edge is left of its left edge (accepted)
                 b.append([s, e])
-            rows.append({"k": list(combo), "b": b, "v": [vid + 1000000 * j for j in range(nvals)]})
+            rows.append({"k": list(combo), "b": b, "v": [vid + 1000 * j for j in range(nvals)]})
             vid += 1
     rng.shuffle(rows)
     t = {"kind": "binned", "keys": keys, "params": params, "nvals": nvals, "rows": rows,
@@ -555,16 +605,15 @@ def gen_population(rng, tables, n, ext):
 
 
 def gen_requests(rng, n, case_tables, pop, ext):
+    """-> (requests, index of the request used at the later call points)."""
     full = list(range(n))
-    reqs = [list(full)]
     perm = list(full)
-    rng.shuffle(perm)
-    reqs.append(perm)
-    for _ in range(rng.randint(1, 3)):
-        sub = rng.sample(full, rng.randint(1, n))
-        reqs.append(sub)
-    reqs.append([rng.randrange(n)])
-    reqs.append([])
+    if rng.random() < 0.8:
+        rng.shuffle(perm)
+    reqs = [perm]
+    reqs.append(rng.sample(full, rng.randint(1, n)))
+    reqs.append([rng.randrange(n)] if rng.random() < 0.7 else [])
+    later = 0
     if not ext:
         # requests made only of simulants inside every table's range (so that non-extrapolating calls also succeed)
         inside = []
@@ -587,11 +636,13 @@ def gen_requests(rng, n, case_tables, pop, ext):
                 inside.append(i)
         if inside:
             rng.shuffle(inside)
+            later = len(reqs)
             reqs.append(inside)
-            reqs.append(inside[: max(1, len(inside) // 2)])
+            if len(inside) > 2:
+                reqs.append(rng.sample(inside, rng.randint(1, len(inside) - 1)))
     if rng.random() < 0.04:
         reqs.append([0, 999])
-    return reqs
+    return reqs, later
 
 
 DATES_SAFE = [(12, 30), (12, 31), (1, 1), (1, 2), (2, 28), (3, 1), (7, 1), (7, 2), (6, 30)]
@@ -628,12 +679,13 @@ def gen_binned_case(rng, leapday=False, ntables=None):
     ext = rng.random() < 0.55
     ntab = ntables or rng.choice([1, 1, 2, 3])
     tables = [gen_table(rng, start[0], force_year=leapday) for _ in range(ntab)]
-    n = rng.randint(3, 14)
+    n = rng.randint(3, 10)
     pop = gen_population(rng, tables, n, ext)
+    reqs, later = gen_requests(rng, n, tables, pop, ext)
     case = {"ext": ext, "validate": rng.random() < 0.8, "start": start, "step": step, "nsteps": nsteps,
             "in_event": nsteps > 0 and rng.random() < 0.5, "pop": pop, "tables": tables,
             "untracked": sorted(rng.sample(range(n), rng.randint(1, max(1, n // 3)))) if rng.random() < 0.3 else [],
-            "requests": gen_requests(rng, n, tables, pop, ext)}
+            "requests": reqs, "rq_later": later}
     return case
 
 
@@ -665,7 +717,7 @@ def mutate_table(rng, t):
         rows.insert(rng.randrange(len(rows) + 1), {"k": list(r["k"]), "b": [list(b) for b in r["b"]], "v": list(r["v"])})
     elif kind == "dup_vals":
         rows.insert(rng.randrange(len(rows) + 1), {"k": list(r["k"]), "b": [list(b) for b in r["b"]],
-                                                   "v": [v + 500000 for v in r["v"]]})
+                                                   "v": [v + 7 for v in r["v"]]})
     elif kind == "shift_start":
         r["b"][p][0] += rng.choice([-1, 1, 2])
     elif kind == "last_end":
@@ -677,7 +729,7 @@ def mutate_table(rng, t):
         r["b"][p] = [r["b"][p][1], r["b"][p][0]]
     elif kind == "dup_start":
         rows.append({"k": list(r["k"]), "b": [list(b) if j != p else [b[0], b[1] + 4] for j, b in enumerate(r["b"])],
-                     "v": [v + 700000 for v in r["v"]]})
+                     "v": [v + 9 for v in r["v"]]})
     elif kind == "empty":
         if rng.random() < 0.3:
             del rows[:]
@@ -711,12 +763,12 @@ def gen_cat_table(rng):
     vid = rng.choice([1, 300])
     rows = []
     for c in combos:
-        rows.append({"k": list(c), "b": [], "v": [vid + 1000000 * j for j in range(nvals)]})
+        rows.append({"k": list(c), "b": [], "v": [vid + 1000 * j for j in range(nvals)]})
         vid += 1
     if rng.random() < 0.2:                                    # malformed: duplicate key tuples
         for _ in range(rng.randint(1, 2)):
             r = rng.choice(rows)
-            rows.append({"k": list(r["k"]), "b": [], "v": [v + 500000 for v in r["v"]]})
+            rows.append({"k": list(r["k"]), "b": [], "v": [v + 5 for v in r["v"]]})
     rng.shuffle(rows)
     t = {"kind": "cat", "keys": keys, "params": [], "nvals": nvals, "rows": rows, "explicit_values": rng.random() < 0.8}
     if rng.random() < 0.5:
@@ -731,7 +783,7 @@ def gen_cat(rng):
     n = rng.randint(2, 12)
     pop = gen_population(rng, tables, n, True)
     start, step, nsteps = gen_schedule(rng, False)
-    reqs = gen_requests(rng, n, tables, pop, True)
+    reqs, _ = gen_requests(rng, n, tables, pop, True)
     # groups whose size equals a duplicate count are what a positional match would get "right": make them likely
     return {"ext": True, "validate": rng.random() < 0.8, "start": start, "step": 1, "nsteps": rng.choice([0, 1]),
             "in_event": False, "pop": pop, "tables": tables, "untracked": [0] if rng.random() < 0.2 else [],
@@ -771,11 +823,12 @@ def run_cat(case):
                 ok, msg = False, f"idx={rec['idx']}: rejected ({rec.get('err')}) although every key has a row"
             elif rec["rows"] != want or not rec.get("shape_ok", True):
                 ok, msg = False, f"idx={rec['idx']}: got {rec['rows'][:4]} expected {want[:4]}"
-        coq_tables.append(cpair(coq_rows(t), coq_pop(case, t), clist(ccalls)))
+        coq_tables.append(cpair(clist(cpair(czlist(r["k"]), czlist(r["v"])) for r in t["rows"]), coq_pop(case, t),
+                                clist(ccalls)))
         obs.append({"calls": [{kk: r[kk] for kk in ("idx", "code", "rows", "err") if kk in r} for r in calls[ti][:10]]})
         tags.add(f"keys{len(t['keys'])}")
-    return Result(ok=ok, msg=msg, coq=clist(coq_tables), key=_key(case) if called else None, obs=obs,
-                  tags=tuple(sorted(tags)))
+    return Result(ok=ok, msg=msg, coq=f"({clist(coq_tables)} : list ctable)", key=_key(case) if called else None,
+                  obs=obs, tags=tuple(sorted(tags)))
 
 
 # ----------------------------------------------------------------------------------------------------------------
@@ -790,7 +843,7 @@ def gen_scalar(rng):
                        "values": [rng.choice([0, 1, -3, 4, 8, 20, 1000, 12345]) for _ in range(nv)]})
     n = rng.randint(1, 10)
     pop = gen_population(rng, [], n, True)
-    reqs = gen_requests(rng, n, [], pop, True)
+    reqs, _ = gen_requests(rng, n, [], pop, True)
     if rng.random() < 0.3:
         reqs.append([n + 5, 0])          # scalar tables never consult the population
     return {"ext": rng.random() < 0.5, "validate": rng.random() < 0.8, "start": [2005, 7, 1], "step": 1,
@@ -824,8 +877,8 @@ def run_scalar(case):
         coq_tables.append(cpair(czlist(t["values"]), clist(ccalls)))
         tags.add(f"values{len(t['values'])}" + ("_list" if t["as_list"] else "_scalar"))
         obs.append({"calls": [{kk: r[kk] for kk in ("idx", "code", "rows") if kk in r} for r in calls[ti][:6]]})
-    return Result(ok=ok, msg=msg, coq=clist(coq_tables), key=_key(case) if called else None, obs=obs,
-                  tags=tuple(sorted(tags)))
+    return Result(ok=ok, msg=msg, coq=f"({clist(coq_tables)} : list stable)", key=_key(case) if called else None,
+                  obs=obs, tags=tuple(sorted(tags)))
 
 
 # ----------------------------------------------------------------------------------------------------------------
@@ -846,16 +899,16 @@ def streams(tier):
     imp = "From Viv Require Import Common Lookup."
     return [
         Stream(name="interp", imports=imp, check="check_interp", gen=gen_interp, run=run_binned,
-               n_quick=150, n_thorough=1500, corpus=lambda: _load_corpus("interp"), finding_of=finding_binned,
+               n_quick=110, n_thorough=700, corpus=lambda: _load_corpus("interp"), finding_of=finding_binned,
                doc="well-formed binned tables in real contexts"),
         Stream(name="malformed", imports=imp, check="check_interp", gen=gen_malformed, run=run_binned,
-               n_quick=120, n_thorough=1500, corpus=lambda: _load_corpus("malformed"), finding_of=finding_binned,
+               n_quick=90, n_thorough=540, corpus=lambda: _load_corpus("malformed"), finding_of=finding_binned,
                doc="binned tables with injected defects: validation and raw merge semantics"),
         Stream(name="categorical", imports=imp, check="check_cat", gen=gen_cat, run=run_cat,
-               n_quick=60, n_thorough=600, corpus=lambda: _load_corpus("categorical")),
+               n_quick=40, n_thorough=250, corpus=lambda: _load_corpus("categorical")),
         Stream(name="scalar", imports=imp, check="check_scalar", gen=gen_scalar, run=run_scalar,
-               n_quick=25, n_thorough=200, corpus=lambda: _load_corpus("scalar")),
+               n_quick=15, n_thorough=90, corpus=lambda: _load_corpus("scalar")),
         Stream(name="leapday", imports=imp, check="check_interp", gen=gen_leapday, run=run_binned,
-               n_quick=8, n_thorough=60, corpus=lambda: _load_corpus("leapday"), finding_of=finding_binned,
+               n_quick=8, n_thorough=48, corpus=lambda: _load_corpus("leapday"), finding_of=finding_binned,
                doc="year tables with the clock on Dec 31 of a leap year (finding F-N)"),
     ]
